@@ -124,9 +124,9 @@ theorem keyPath_length (name : String) : 1 ≤ (keyPath name).length := by
   | cons _ _ => simp
 
 /-- reading one field under a module root -/
-theorem readField_same (hpl : c.Plain) (h : SameExceptPasswords c c') (root : List String) (hroot : 2 ≤ root.length)
-    (suffix : String) (hs : suffix ≠ "password") (g : Getter) :
-    readField c root suffix g = readField c' root suffix g := by
+theorem readField_same (hpl : c.Plain) (h : SameExceptPasswords c c') (root raw : List String) (hroot : 2 ≤ root.length)
+    (hraw : 2 ≤ raw.length) (suffix : String) (hs : suffix ≠ "password") (g : Getter) :
+    readField c root raw suffix g = readField c' root raw suffix g := by
   have hpl' : c'.Plain := hpl.of_paths h.1
   have hp := not_password_of_suffix root suffix hs
   cases g
@@ -134,7 +134,7 @@ theorem readField_same (hpl : c.Plain) (h : SameExceptPasswords c c') (root : Li
   · simp [readField, vInt_plain hpl, vInt_plain hpl', getInt_same h hp]
   · simp [readField, vBool_plain hpl, vBool_plain hpl', getBool_same h hp]
   · simp [readField, vSlice_plain hpl, vSlice_plain hpl', getSlice_same h hp]
-  · simp only [readField, vLeaves_plain hpl, vLeaves_plain hpl']
+  · simp only [readField]
     rw [leavesUnder_same h]
     simp; omega
 
@@ -145,14 +145,14 @@ theorem NoPasswordSuffix.of_bool {fs} (h : noPasswordSuffix fs = true) : NoPassw
   have := (List.all_eq_true.mp h) f hf
   simpa using this
 
-theorem readFields_same (hpl : c.Plain) (h : SameExceptPasswords c c') (root : List String) (hroot : 2 ≤ root.length)
-    (fs : List (String × String × Getter)) (hfs : NoPasswordSuffix fs) :
-    readFields c root fs = readFields c' root fs := by
+theorem readFields_same (hpl : c.Plain) (h : SameExceptPasswords c c') (root raw : List String) (hroot : 2 ≤ root.length)
+    (hraw : 2 ≤ raw.length) (fs : List (String × String × Getter)) (hfs : NoPasswordSuffix fs) :
+    readFields c root raw fs = readFields c' root raw fs := by
   unfold readFields
   apply List.map_congr_left
   intro f hf
   obtain ⟨j, suffix, g⟩ := f
-  simp [readField_same hpl h root hroot suffix (hfs _ hf) g]
+  simp [readField_same hpl h root raw hroot hraw suffix (hfs _ hf) g]
 
 theorem clientProfile_same (hpl : c.Plain) (h : SameExceptPasswords c c') (name : String) :
     clientProfile c name = clientProfile c' name := by
@@ -168,13 +168,13 @@ theorem clientProfile_same (hpl : c.Plain) (h : SameExceptPasswords c c') (name 
   rw [g1 _ "certfile" (by decide), g1 _ "keyfile" (by decide), g1 _ "cafile" (by decide), g2 _ "noverify" (by decide),
     g2 _ "handshake-first" (by decide), g1 _ "username" (by decide)]
 
-theorem moduleDetailAt_same (hpl : c.Plain) (h : SameExceptPasswords c c') (root : List String) (hroot : 2 ≤ root.length)
-    (fs : List (String × String × Getter)) (hfs : NoPasswordSuffix fs) (b : Bool) :
-    moduleDetailAt c root fs b = moduleDetailAt c' root fs b := by
+theorem moduleDetailAt_same (hpl : c.Plain) (h : SameExceptPasswords c c') (root raw : List String) (hroot : 2 ≤ root.length)
+    (hraw : 2 ≤ raw.length) (fs : List (String × String × Getter)) (hfs : NoPasswordSuffix fs) (b : Bool) :
+    moduleDetailAt c root raw fs b = moduleDetailAt c' root raw fs b := by
   have hpl' : c'.Plain := hpl.of_paths h.1
   unfold moduleDetailAt
   simp only [vString_plain hpl, vString_plain hpl']
-  rw [readFields_same hpl h root hroot fs hfs,
+  rw [readFields_same hpl h root raw hroot hraw fs hfs,
     getString_same h (not_password_of_suffix root "client-profile" (by decide))]
   cases b <;> simp [clientProfile_same hpl h]
 
@@ -184,7 +184,7 @@ theorem moduleDetail_same (hpl : c.Plain) (h : SameExceptPasswords c c') (kind n
   have hpl' : c'.Plain := hpl.of_paths h.1
   unfold moduleDetail moduleConfigured
   rw [vChildren_plain hpl, vChildren_plain hpl', children_same h,
-    moduleDetailAt_same hpl h _ (by have := keyPath_length name; simp; omega) fs hfs b]
+    moduleDetailAt_same hpl h _ _ (by have := keyPath_length name; simp; omega) (by simp) fs hfs b]
 
 theorem storageFields_np : NoPasswordSuffix storageFields := .of_bool (by decide)
 theorem evaluatorFields_np : NoPasswordSuffix evaluatorFields := .of_bool (by decide)
@@ -195,21 +195,22 @@ theorem notifierHTTP_np : NoPasswordSuffix notifierHTTP := .of_bool (by decide)
 theorem notifierSlack_np : NoPasswordSuffix notifierSlack := .of_bool (by decide)
 theorem notifierEmail_np : NoPasswordSuffix notifierEmail := .of_bool (by decide)
 
-theorem notifierDetailAt_same (hpl : c.Plain) (h : SameExceptPasswords c c') (root : List String) (hroot : 2 ≤ root.length) :
-    notifierDetailAt c root = notifierDetailAt c' root := by
+theorem notifierDetailAt_same (hpl : c.Plain) (h : SameExceptPasswords c c') (root raw : List String) (hroot : 2 ≤ root.length)
+    (hraw : 2 ≤ raw.length) :
+    notifierDetailAt c root raw = notifierDetailAt c' root raw := by
   have hpl' : c'.Plain := hpl.of_paths h.1
   unfold notifierDetailAt
   simp only [vString_plain hpl, vString_plain hpl',
     getString_same h (not_password_of_suffix _ "class-name" (by decide)),
-    moduleDetailAt_same hpl h root hroot _ notifierHTTP_np, moduleDetailAt_same hpl h root hroot _ notifierEmail_np,
-    moduleDetailAt_same hpl h root hroot _ notifierSlack_np, moduleDetailAt_same hpl h root hroot _ notifierCommon_np]
+    moduleDetailAt_same hpl h root raw hroot hraw _ notifierHTTP_np, moduleDetailAt_same hpl h root raw hroot hraw _ notifierEmail_np,
+    moduleDetailAt_same hpl h root raw hroot hraw _ notifierSlack_np, moduleDetailAt_same hpl h root raw hroot hraw _ notifierCommon_np]
 
 theorem notifierDetail_same (hpl : c.Plain) (h : SameExceptPasswords c c') (name : String) :
     notifierDetailResp c name = notifierDetailResp c' name := by
   have hpl' : c'.Plain := hpl.of_paths h.1
   unfold notifierDetailResp moduleConfigured
   rw [vChildren_plain hpl, vChildren_plain hpl', children_same h,
-    notifierDetailAt_same hpl h _ (by have := keyPath_length name; simp; omega)]
+    notifierDetailAt_same hpl h _ _ (by have := keyPath_length name; simp; omega) (by simp)]
 
 /-- **Non-interference**: two backends that differ only in the configuration, and there only in
     password values, answer every request identically (and leave the same world behind). -/
